@@ -106,7 +106,7 @@ SumKidsObs(C, f, n) == RSumSeq([i \in 1..Len(C.kids[n]) |-> f[C.kids[n][i]]])
 \* securities whose exact budget was minus their value but which were sized by
 \* the ordinary rule (known finding K4)
 IsK4(C, s, e) ==
-  /\ e[1] \in {"C05.sizing", "C06.rebalance"} /\ e[2] = "ok" /\ s.t > 0 /\ ~Bad(e[4]) /\ ~IsZero(e[4])
+  /\ e[1] \in {"C05.sizing", "C06.rebalance", "C06.pushdown"} /\ e[2] = "ok" /\ s.t > 0 /\ ~Bad(e[4]) /\ ~IsZero(e[4])
   \* (value and position as they were when this trade was sized: one event may
   \* trade a security, go bankrupt and liquidate it)
   /\ RAdd(e[4], e[6]) = Zero /\ e[5] # RNeg(e[7])
@@ -123,7 +123,7 @@ Judge(C, s, ev, r, prevchk) ==
         \o [i \in 1..Len(r.chk) |->
               <<r.chk[i][1], r.chk[i][3],
                 IF IsK4(C, AtPost(s, r), r.chk[i]) THEN "K4"
-                ELSE IF r.chk[i][2] # "fail" \/ r.chk[i][1] \notin {"C05.sizing", "C06.rebalance"} THEN r.chk[i][2]
+                ELSE IF r.chk[i][2] # "fail" \/ r.chk[i][1] \notin {"C05.sizing", "C06.rebalance", "C06.pushdown"} THEN r.chk[i][2]
                 ELSE LET k == KF_C05(C, s, r.chk[i][3], r.chk[i][4], r.chk[i][5], FALSE)
                      IN  IF k = "none" THEN "fail" ELSE k>>]
         \* every executed trade is explained by the operation, and positions follow
